@@ -207,8 +207,8 @@ class Server(object):
                 except ConnectionLost:
                     raise
                 except UnicodeDecodeError:
+                    # The command has been answered; the session goes on.
                     bad_arguments.send(self.io)
-                    raise
                 except Exception:
                     unhandled_error.send(self.io)
                     raise
